@@ -210,7 +210,7 @@ func init() {
 			Setup:       func(ctx *fw.Ctx) error { return refSelfTest(false) },
 			Gen: func(ctx *fw.Ctx) []fw.Case {
 				var cs []fw.Case
-				nb := 2
+				nb := 8
 				if !ctx.Quick {
 					nb = 40
 				}
